@@ -122,9 +122,9 @@ def o_c15_clamp(params, cases, outs):
     r, q, iv = parse_ival(t[1]), parse_ival(t[2]), parse_ival(t[3])
     o = outs[0]
     if iv[0] != r[0]:
-        return None if o == "err ctg" else "clamp to another contig must be an error, got %s" % o
+        return None if o.startswith("err ") else "clamp to another contig must be an error, got %s" % o
     if iv[1] != r[1]:
-        return None if o == "err strand" else "clamp to another strand must be an error, got %s" % o
+        return None if o.startswith("err ") else "clamp to another strand must be an error, got %s" % o
     if not meets(r, iv):
         return None  # outside the property's quantifier
     if r[1] == "+":
@@ -167,7 +167,7 @@ def o_c15_ptry(params, cases, outs):
     o = outs[0]
     if eq:
         return None if o.startswith("ok ") else "equal lengths refused: %s" % o
-    return None if o == "err counts" else "unequal lengths accepted: %s" % o
+    return None if o.startswith("err ") else "unequal lengths accepted: %s" % o
 
 
 # ------------------------------------------------------------------------------------------------
